@@ -793,6 +793,14 @@ Proof.
     apply app_inj_tail in E. destruct E as [E1 E2]. exists T'. subst t'. rewrite ET. auto.
 Qed.
 
+Lemma app_mid_in : forall A (F T Sy : list A) (m0 m : A),
+  F ++ m0 :: T = Sy ++ [m] -> T <> [] -> In m0 Sy.
+Proof.
+  intros A F T Sy m0 m E HT. destruct (exists_last HT) as (T' & t & ET). rewrite ET in E.
+  replace (F ++ m0 :: T' ++ [t]) with ((F ++ m0 :: T') ++ [t]) in E by (rewrite <- app_assoc; reflexivity).
+  apply app_inj_tail in E. destruct E as [E _]. rewrite <- E. apply in_or_app. right. left. reflexivity.
+Qed.
+
 (* ------------------------------------------------------------------ handleBackup, generic effect
    p handles its oldest pending request m0: it may adopt the body of m0 (a Put always, a sync request
    only if newer), sets shouldSync, goes back to replicaLoop, and answers the sender if that is the live leader *)
@@ -1185,16 +1193,461 @@ Proof.
       destruct (le_lt_dec (K s q) (Kv (m_body m0))) as [Hge|Hlt]; [exfalso; lia|].
       destruct (Ht Hlt) as (_ & _ & X). left. apply How. left. exact X.
     + right. rewrite Hins, Hrlq, (hbr_sresps_other b Hne), (hb_sreqs_other b Hne), HKq, Hpcq. auto.
-  - admit_tok.
-  - admit_count.
-  - admit_noack.
-  - admit_repl.
+  - (* tok *)
+    intros _ Hnr b Ab Hb. apply hb_alive in Ab. rewrite Hinr in Hnr. rewrite HKq.
+    pose proof (ph_tok cfg w s Ph Aq Hnr b Ab Hb) as H. fold q in H.
+    assert (G : insync s q /\ In b (r_replicaSet (rl s q)) /\ owedP s q ->
+                insync s' q /\ In b (r_replicaSet (rl s' q)) /\ owedP s' q).
+    { rewrite Hins, Hrlq, HowP. auto. }
+    destruct (Nat.eq_dec b p) as [->|Hne].
+    + rewrite Etp in H. rewrite Etp'. destruct (sresps s q p) as [|a A']; cbn [app] in *.
+      * destruct H as [H1 H2]. split; [exact H1|]. intros Hlt. apply G. apply H2. lia.
+      * destruct H as [H1 H2]. split; [|intros Hlt; apply G; apply H2; exact Hlt].
+        apply Forall_app in H1. destruct H1 as [F1 F2]. inversion F2 as [|? ? F3 F4]; subst.
+        apply Forall_app. split; [exact F1|]. constructor; [lia | exact F4].
+    + rewrite (hbr_toks_other b Hne). destruct (toks s q b) as [|t rest]; [exact Logic.I|]. destruct H as [H1 H2].
+      split; [exact H1|]. intros Hlt. apply G. apply H2. exact Hlt.
+  - (* count *)
+    intros _ HK b Ab Hb. apply hb_alive in Ab. rewrite HKq in HK.
+    destruct (ph_count cfg w s Ph Aq HK b Ab Hb) as [C1 C2]. fold q in C1, C2.
+    destruct (Nat.eq_dec b p) as [->|Hne].
+    + rewrite Etp in C1, C2. rewrite Etp'. rewrite app_length in *. cbn [List.length] in *. split; [exact C1|].
+      intros _. rewrite Hins, Hrlq, Hpcq. apply C2. destruct (sresps s q p); discriminate.
+    + rewrite (hbr_toks_other b Hne), Hins, Hrlq, Hpcq. split; assumption.
+  - (* noack *)
+    intros _ Hnr b Ab Hb. apply hb_alive in Ab. rewrite Hinr in Hnr. rewrite hbs_acks, hbs_puts.
+    apply (ph_noack cfg w s Ph Aq Hnr b Ab Hb).
+  - (* repl *)
+    intros _ Hr. rewrite Hinr in Hr. destruct (ph_repl cfg w s Ph Aq Hr) as (R1 & R2 & R3 & R4).
+    destruct hbr_xs_p as (F & T & EX & EX' & HT).
+    assert (Hm0lt : Kv (m_body m0) < Mx w).
+    { pose proof (body_ok_Kv w _ hb_body_ok) as Hle0.
+      destruct (Nat.eq_dec (Kv (m_body m0)) (Mx w)) as [E0|N0]; [|lia]. exfalso.
+      destruct (R2 p m0 Ap Hpq) as [_ Hty]; [rewrite hb_pend_p; left; reflexivity | exact E0|].
+      rewrite Ht0 in Hty. discriminate. }
+    (* p has not yet applied the put: it is old *)
+    destruct (R4 p Ap Hpq) as (Sy & Pu & E & HSy & Hst). fold q in E, Hst. rewrite EX in E.
+    assert (Hpend_typ : forall t, In t T -> m_typ t <> PUT_RESP).
+    { intros t Ht1. destruct (pend_pmA s p t IA Ap (HT t Ht1)) as (_ & [H|H] & _); rewrite H; discriminate. }
+    assert (Hold_p : isold w s p /\
+       exists Sy' , F ++ resp :: T = Sy' ++ Pu /\ Forall sync_typed Sy' /\
+       ((Pu = [] /\ ~ rsent s q p) \/ (exists m, Pu = [m] /\ m_typ m = PUT_REQ /\ m_body m = r_lastPutBody (rl s q) /\ rsent s q p))).
+    { assert (Hresp_sync : sync_typed resp) by (left; exact Htr).
+      destruct Hst as [(X1 & X2 & X3 & X4)|[(X1 & X2 & X3 & m & X4 & X5 & X6)|[(X1 & X2 & X3 & m & X4 & X5)|(X1 & X2 & X3 & X4 & X5)]]].
+      - split; [exact X2|]. subst Pu. rewrite app_nil_r in E. subst Sy. exists (F ++ resp :: T). rewrite app_nil_r.
+        split; [reflexivity|]. split; [|left; auto].
+        apply Forall_app in HSy. destruct HSy as [F1 F2]. inversion F2; subst. apply Forall_app. split; [exact F1 | constructor; assumption].
+      - split; [exact X2|]. subst Pu.
+        destruct (app_last_split _ F T Sy m0 m E) as (T' & ET & ESy); [intros ->; rewrite Ht0 in X5; discriminate|].
+        exists (F ++ resp :: T'). split; [rewrite ET, <- app_assoc; reflexivity|]. split; [|right; exists m; auto].
+        rewrite ESy in HSy. apply Forall_app in HSy. destruct HSy as [F1 F2]. inversion F2; subst. apply Forall_app. split; [exact F1 | constructor; assumption].
+      - exfalso. subst Pu.
+        destruct (app_last_split _ F T Sy m0 m E) as (T' & ET & ESy); [intros ->; rewrite Ht0 in X5; discriminate|].
+        apply (Hpend_typ m); [rewrite ET; apply in_or_app; right; left; reflexivity | exact X5].
+      - exfalso. subst Sy Pu. destruct F; discriminate E. }
+    destruct Hold_p as (Hpo & Sy' & ESy' & HSy' & HPu).
+    assert (Hpo' : isold w s' p) by (destruct hb_version_p as (_ & _ & _ & _ & H); apply (H Hm0lt); exact Hpo).
+    split; [apply (hb_isnew_other q Hqp); exact R1|]. split; [|split].
+    + intros b m Ab Hb Hm. apply hb_alive in Ab. apply (R2 b m Ab Hb). apply hb_pend_incl. exact Hm.
+    + rewrite SR1. intros m Hm Htm. apply in_app_or in Hm. destruct Hm as [Hm|[<-|[]]]; [apply R3; assumption|].
+      rewrite Hkr. destruct (isold_K w s' p Hpo'). lia.
+    + intros b Ab Hb. apply hb_alive in Ab.
+      assert (Hrs : rsent s' q b <-> rsent s q b) by (unfold rsent; rewrite Hpcq, Hrlq; tauto).
+      destruct (Nat.eq_dec b p) as [->|Hne].
+      * exists Sy', Pu. rewrite EX'. split; [exact ESy'|]. split; [exact HSy'|]. rewrite Hrs, Hrlq.
+        destruct (R4 p Ap Hpq) as (Sy1 & Pu1 & _ & _ & Hst0). fold q in Hst0.
+        assert (HinS : In p (r_replicaSet (rl s q))).
+        { destruct Hst0 as [(_ & _ & X & _)|[(_ & _ & X & _)|[(_ & X2 & _)|(_ & X2 & _)]]]; auto;
+            exfalso; pose proof (isnew_K w s p X2); destruct (isold_K w s p Hpo); lia. }
+        destruct HPu as [(-> & Hns)|(m & -> & Hm1 & Hm2 & Hs)]; [left; auto | right; left; split; [exact Hs|]; split; [exact Hpo'|]; split; [exact HinS|]; exists m; auto].
+      * destruct (R4 b Ab Hb) as (Sy0 & Pu0 & E0 & HSy0 & Hst0). fold q in E0, Hst0.
+        exists Sy0, Pu0. rewrite (hbr_xs_other b Hne). split; [exact E0|]. split; [exact HSy0|].
+        rewrite Hrs, Hrlq, (hb_isold_other b Hne), (hb_isnew_other b Hne). exact Hst0.
 Qed.
 
 End RSYNC.
+
+
+(* ---- the handled request was the PUT_REQ of the live leader *)
+Section RPUT.
+Hypothesis Ht0 : m_typ m0 = PUT_REQ.
+Hypothesis Htr : m_typ resp = PUT_RESP.
+
+Lemma hbp_is_put : is_put q m0 = true.
+Proof. unfold is_put. rewrite Hfrom, Ht0, Nat.eqb_refl. reflexivity. Qed.
+
+Lemma inrepl_dec : forall s0 r, inrepl s0 r \/ ~ inrepl s0 r.
+Proof. intros s0 r. unfold inrepl. destruct (pcr s0 r); intuition discriminate. Qed.
+
+Lemma invB_hb_put : InvB w s'.
+Proof.
+  pose proof IB as [V P Ph]. pose proof hbr_pq as Hpq.
+  assert (Hqp : q <> p) by auto.
+  pose proof hbr_rlq as Hrlq. pose proof hbr_pcq as Hpcq. pose proof hbr_Kq as HKq.
+  assert (Hinr : inrepl s' q <-> inrepl s q) by (unfold inrepl; rewrite Hpcq; tauto).
+  assert (Hr : inrepl s q).
+  { destruct (inrepl_dec s q) as [H|H]; [exact H|]. exfalso.
+    destruct (ph_noack cfg w s Ph Aq H p Ap Hpq) as [_ Hp]. fold q in Hp. rewrite hb_puts_p, hbp_is_put in Hp. discriminate Hp. }
+  destruct (ph_repl cfg w s Ph Aq Hr) as (R1 & R2 & R3 & R4).
+  constructor.
+  - apply hb_versions. intros _ m Hm Ht. rewrite SR1 in Hm. apply in_app_or in Hm.
+    destruct Hm as [Hm|[<-|[]]]; [|rewrite Htr in Ht; discriminate].
+    destruct (v_resp cfg w s V m Aq Hm Ht) as [B1 B2]. split; [exact B1|]. intros A2.
+    pose proof (hb_K_mono (m_from m)). specialize (B2 A2). lia.
+  - apply hb_prefix. intros _ m Hm Ht Hv. rewrite SR1 in Hm. apply in_app_or in Hm.
+    destruct Hm as [Hm|[<-|[]]]; [apply (p_resp cfg w s P m Aq Hm Ht Hv) | rewrite Htr in Ht; discriminate].
+  - constructor; rewrite S6; fold q.
+    + intros _ H. exfalso. apply H. apply Hinr. exact Hr.
+    + intros _ H. exfalso. apply H. apply Hinr. exact Hr.
+    + intros _ HK. rewrite HKq, (isnew_K w s q R1) in HK. lia.
+    + intros _ H. exfalso. apply H. apply Hinr. exact Hr.
+    + intros _ _.
+      destruct hbr_xs_p as (F & T & EX & EX' & HT).
+      assert (Hpend_typ : forall t, In t T -> m_typ t <> PUT_RESP).
+      { intros t Ht1. destruct (pend_pmA s p t IA Ap (HT t Ht1)) as (_ & [H|H] & _); rewrite H; discriminate. }
+      (* p is in the state "PUT_REQ pending": the request is the last thing in flight *)
+      destruct (R4 p Ap Hpq) as (Sy & Pu & E & HSy & Hst). fold q in E, Hst. rewrite EX in E.
+      assert (Hm0_nosync : ~ sync_typed m0) by (intros [H|H]; rewrite Ht0 in H; discriminate).
+      assert (Hqh : T = [] /\ Sy = F /\ In p (r_replicaSet (rl s q)) /\ rsent s q p /\ m_body m0 = r_lastPutBody (rl s q)).
+      { destruct Hst as [(X1 & X2 & X3 & X4)|[(X1 & X2 & X3 & m & X4 & X5 & X6)|[(X1 & X2 & X3 & m & X4 & X5)|(X1 & X2 & X3 & X4 & X5)]]].
+        - exfalso. subst Pu. rewrite app_nil_r in E. subst Sy. apply Forall_app in HSy. destruct HSy as [_ F2]. inversion F2; subst. contradiction.
+        - subst Pu. destruct T as [|t0 T0].
+          + apply app_inj_tail in E. destruct E as [E1 E2]. subst m. auto.
+          + exfalso. apply Hm0_nosync. rewrite Forall_forall in HSy. apply HSy.
+            apply (app_mid_in _ F (t0 :: T0) Sy m0 m E). discriminate.
+        - exfalso. subst Pu. destruct T as [|t0 T0].
+          + apply app_inj_tail in E. destruct E as [_ E2]. subst m. rewrite Ht0 in X5. discriminate.
+          + apply Hm0_nosync. rewrite Forall_forall in HSy. apply HSy.
+            apply (app_mid_in _ F (t0 :: T0) Sy m0 m E). discriminate.
+        - exfalso. subst Sy Pu. destruct F; discriminate E. }
+      destruct Hqh as (ET & ESy & HinS & Hsent & Hbody). subst T Sy.
+      (* p adopts the latest version *)
+      assert (Hnew' : isnew w s' p).
+      { destruct R1 as [R1l _]. fold q in R1l.
+        assert (HKv : Kv (m_body m0) = Mx w) by (rewrite Hbody, R1l; reflexivity).
+        destruct hb_version_p as (Hv & _ & Had & _). specialize (Had HKv).
+        destruct Hv as [H|H]; [exact H|]. destruct (isold_K w s' p H). lia. }
+      split; [apply (hb_isnew_other q Hqp); exact R1|]. split; [|split].
+      * intros b m Ab Hb Hm. apply hb_alive in Ab. apply (R2 b m Ab Hb). apply hb_pend_incl. exact Hm.
+      * rewrite SR1. intros m Hm Htm. apply in_app_or in Hm. destruct Hm as [Hm|[<-|[]]]; [apply R3; assumption|].
+        rewrite Htr in Htm. discriminate.
+      * intros b Ab Hb. apply hb_alive in Ab.
+        assert (Hrs : rsent s' q b <-> rsent s q b) by (unfold rsent; rewrite Hpcq, Hrlq; tauto).
+        destruct (Nat.eq_dec b p) as [->|Hne].
+        -- exists F, [resp]. rewrite EX'. split; [reflexivity|]. split; [exact HSy|].
+           right. right. left. rewrite Hrs, Hrlq. split; [exact Hsent|]. split; [exact Hnew'|]. split; [exact HinS|].
+           exists resp. auto.
+        -- destruct (R4 b Ab Hb) as (Sy0 & Pu0 & E0 & HSy0 & Hst0). fold q in E0, Hst0.
+           exists Sy0, Pu0. rewrite (hbr_xs_other b Hne). split; [exact E0|]. split; [exact HSy0|].
+           rewrite Hrs, Hrlq, (hb_isold_other b Hne), (hb_isnew_other b Hne). exact Hst0.
+Qed.
+
+End RPUT.
 
 End RESPOND.
 
 End HBSTEP.
 
+
+(* ------------------------------------------------------------------ handleBackup: from the model's step to the generic lemmas *)
+Lemma invB_hb_finish : forall w s s1 p ch s' m0 l1 rb rt,
+  InvA s -> InvB w s -> alive s p -> pcr s p = HandleBackup -> r_req (rl s p) = Some m0 ->
+  net s1 = net s -> fdv s1 = fdv s -> prim s1 = prim s -> rl s1 = rl s ->
+  (forall r k, r <> p -> fsv s1 r k = fsv s r k) ->
+  r_shouldSync l1 = true ->
+  ((r_lastPutBody l1 = r_lastPutBody (rl s p) /\ (forall k, fsv s1 p k = fsv s p k) /\
+    m_typ m0 = SYNC_REQ /\ Kv (m_body m0) <= K s p) \/
+   (exists ver k v, m_body m0 = BPut ver (Some (k, v)) /\ r_lastPutBody l1 = m_body m0 /\
+    (forall k0, fsv s1 p k0 = upd_fs (fsv s) p k v p k0) /\ K s p <= ver /\ (m_typ m0 = SYNC_REQ -> K s p < ver))) ->
+  ((rt = PUT_RESP /\ m_typ m0 = PUT_REQ) \/ (rt = SYNC_RESP /\ m_typ m0 = SYNC_REQ /\ rb = r_lastPutBody l1)) ->
+  (if negb (ch_alt ch)
+   then match link_send s1 (m_from m0) RESP (mkMsg p (m_from m0) rb BACKUP_SRC rt (m_id m0)) with
+        | None => Blocked
+        | Some s2 => Ok (set_rl s2 p (r_set_pc l1 ReplicaLoop))
+        end
+   else if fdv s1 (m_from m0) then Ok (set_rl s1 p (r_set_pc l1 ReplicaLoop)) else Blocked) = Ok s' ->
+  InvB w s'.
+Proof.
+  intros w s s1 p ch s' m0 l1 rb rt IA IB Ap Epc Hreq Hnet Hfd Hprim Hrl Hfs Hss Hver Hrt Hs.
+  assert (Hpm : pmA p (ldr s) m0).
+  { destruct (a_loc cfg s IA p Ap) as (_ & L2 & _). destruct (L2 Epc) as (m & E & H). rewrite Hreq in E. inversion E. subst. exact H. }
+  destruct (ch_alt ch); cbn [negb] in Hs.
+  - (* the sender has been detected dead: no answer *)
+    destruct (fdv s1 (m_from m0)) eqn:Efd; [|discriminate]. inversion Hs; subst s'; clear Hs.
+    rewrite Hfd in Efd.
+    apply (invB_hb_noresp w s _ p m0 IB Ap Epc Hreq); simp_st.
+    + intros r Hr. rewrite updf_other by exact Hr. rewrite Hrl. reflexivity.
+    + unfold pcr. simp_st. rewrite updf_same. reflexivity.
+    + rewrite updf_same. exact Hss.
+    + exact Hfs.
+    + intros r. rewrite Hnet. reflexivity.
+    + apply ldr_prim_ext. intros r. simp_st. rewrite Hprim. reflexivity.
+    + rewrite updf_same. simp_st. exact Hver.
+    + intros r. rewrite Hnet. reflexivity.
+    + intros _ E. apply (fd_not_alive cfg s _ IA Efd). rewrite E.
+      destruct (alive_ge_ldr cfg s p IA Ap) as [Hn0 _]. split; [apply (ldr_nonzero cfg s IA Hn0)|].
+      (* the leader would be alive: but its fd flag is set *)
+      exfalso. rewrite E in Efd. rewrite (a_fd cfg s IA) in Efd. apply andb_true_iff in Efd. destruct Efd as [_ Efd].
+      destruct Hpm as (_ & _ & _ & _ & Hlt & _). rewrite E in Hlt.
+      (* pc of the leader is RDone: contradiction with leader not RDone *)
+      destruct (ldr_nonzero cfg s IA Hn0) as (_ & Hnd & _). destruct (pcr s (ldr s)); cbn in Efd; try discriminate. apply Hnd. reflexivity.
+  - (* the answer is sent: the sender is the live leader *)
+    unfold link_send in Hs. destruct (enabled (net s1 (m_from m0) RESP)) eqn:Een; [|discriminate].
+    inversion Hs; subst s'; clear Hs. rewrite Hnet in Een.
+    destruct Hpm as (Hsrc & Htyp & Hf1 & Hfq & Hfp & Hbody).
+    assert (Hqr : isrep (ldr s)).
+    { destruct (alive_ge_ldr cfg s p IA Ap) as [Hn _]. apply (ldr_nonzero cfg s IA Hn). }
+    assert (Hx : isrep (m_from m0)) by (unfold ProofsCrashA.isrep in *; lia).
+    assert (Ax : alive s (m_from m0)) by (eapply enabled_alive; eauto).
+    assert (Hxq : m_from m0 = ldr s).
+    { destruct (alive_ge_ldr cfg s _ IA Ax) as [_ H]. lia. }
+    assert (Aq : alive s (ldr s)) by (rewrite <- Hxq; exact Ax).
+    set (resp := mkMsg p (m_from m0) rb BACKUP_SRC rt (m_id m0)).
+    destruct Hrt as [(-> & Ht0)|(-> & Ht0 & Hrb)].
+    + apply (invB_hb_put w s _ p m0 IA IB Ap Epc Hreq) with (resp := resp); simp_st; auto.
+      * intros r Hr. rewrite updf_other by exact Hr. rewrite Hrl. reflexivity.
+      * unfold pcr. simp_st. rewrite updf_same. reflexivity.
+      * rewrite updf_same. exact Hss.
+      * intros r. rewrite Hnet. rewrite upd_net_other by (right; discriminate). reflexivity.
+      * apply ldr_prim_ext. intros r. simp_st. rewrite Hprim. reflexivity.
+      * rewrite updf_same. simp_st. exact Hver.
+      * rewrite Hnet, Hxq, upd_net_same. reflexivity.
+    + apply (invB_hb_sync w s _ p m0 IA IB Ap Epc Hreq) with (resp := resp); simp_st; auto.
+      * intros r Hr. rewrite updf_other by exact Hr. rewrite Hrl. reflexivity.
+      * unfold pcr. simp_st. rewrite updf_same. reflexivity.
+      * rewrite updf_same. exact Hss.
+      * intros r. rewrite Hnet. rewrite upd_net_other by (right; discriminate). reflexivity.
+      * apply ldr_prim_ext. intros r. simp_st. rewrite Hprim. reflexivity.
+      * rewrite updf_same. simp_st. exact Hver.
+      * rewrite Hnet, Hxq, upd_net_same. reflexivity.
+      * rewrite updf_same. simp_st. exact Hrb.
+Qed.
+
+
+Lemma invB_handleBackup : forall w s p ch s', InvA s -> InvB w s -> alive s p ->
+  pcr s p = HandleBackup -> step_handleBackup cfg ch s p = Ok s' -> InvB w s'.
+Proof.
+  intros w s p ch s' IA IB Ap Epc Hs.
+  destruct (a_loc cfg s IA p Ap) as (_ & L2 & _ & _ & _ & _ & _ & L8).
+  destruct (L2 Epc) as (m0 & Hreq & Hpm).
+  unfold step_handleBackup in Hs. rewrite Hreq in Hs. cbn [bindT] in Hs.
+  pose proof Hpm as (Hsrc & Htyp & Hf1 & Hfq & Hfp & ver & c & Hb).
+  rewrite Hsrc in Hs. cbn [srct_eqb negb] in Hs.
+  destruct Htyp as [Ht|Ht]; rewrite Ht, Hb in Hs; cbn [body_key body_value body_ver bindT] in Hs.
+  - (* PUT_REQ *)
+    destruct c as [[k v]|]; cbn [bindT] in Hs; [|discriminate].
+    destruct (body_ver (r_lastPutBody (rl s p))) as [lv|] eqn:Elv; cbn [bindT] in Hs; [|discriminate].
+    assert (HKp : K s p = lv) by (unfold K; destruct (r_lastPutBody (rl s p)); cbn in *; try discriminate; congruence).
+    destruct (ver <? lv) eqn:Elt; [discriminate|]. apply Nat.ltb_ge in Elt.
+    cbn [r_respBody r_respTyp r_set_sync r_set_resp r_set_lpb bindT] in Hs.
+    eapply (invB_hb_finish w s (set_fs s (upd_fs (fsv s) p k v)) p ch s' m0); try exact Hs; try reflexivity; auto.
+    + intros r k0 Hr. simp_st. apply upd_fs_other_node. exact Hr.
+    + right. exists ver, k, v. rewrite Hb. simp_st. repeat split; auto; try lia. rewrite Ht. discriminate.
+  - (* SYNC_REQ *)
+    destruct (body_ver (r_lastPutBody (rl s p))) as [lv|] eqn:Elv; cbn [bindT] in Hs; [|discriminate].
+    assert (HKp : K s p = lv) by (unfold K; destruct (r_lastPutBody (rl s p)); cbn in *; try discriminate; congruence).
+    destruct (lv <? ver) eqn:Elt.
+    + apply Nat.ltb_lt in Elt.
+      destruct c as [[k v]|]; cbn [bindT] in Hs; [|discriminate].
+      cbn [r_respBody r_respTyp r_set_sync r_set_resp r_set_lpb r_lastPutBody bindT] in Hs.
+      eapply (invB_hb_finish w s (set_fs s (upd_fs (fsv s) p k v)) p ch s' m0); try exact Hs; try reflexivity; auto.
+      * intros r k0 Hr. simp_st. apply upd_fs_other_node. exact Hr.
+      * right. exists ver, k, v. rewrite Hb. simp_st. repeat split; auto; lia.
+    + apply Nat.ltb_ge in Elt.
+      cbn [r_respBody r_respTyp r_set_sync r_set_resp r_set_lpb r_lastPutBody bindT] in Hs.
+      eapply (invB_hb_finish w s s p ch s' m0); try exact Hs; try reflexivity; auto.
+      left. simp_st. rewrite Hb. cbn [Kv]. repeat split; auto. lia.
+Qed.
+
+
+Lemma filter_nil_forall : forall A (g : A -> bool) l, (forall x, In x l -> g x = false) -> filter g l = [].
+Proof.
+  intros A g l. induction l as [|a l IH]; intros H; cbn; [reflexivity|].
+  rewrite (H a) by (left; reflexivity). apply IH. intros x Hx. apply H. right. exact Hx.
+Qed.
+
+(* nothing pending anywhere was sent by a replica above the current leader *)
+Lemma pend_not_from_above : forall s b q' m, InvA s -> alive s b -> ldr s < q' -> In m (pend s b) ->
+  Nat.eqb (m_from m) q' = false.
+Proof.
+  intros s b q' m IA Ab Hlt Hm. destruct (pend_pmA s b m IA Ab Hm) as (_ & _ & _ & Hle & _).
+  apply Nat.eqb_neq. lia.
+Qed.
+
+(* ------------------------------------------------------------------ failLabel *)
+Lemma invB_failLabel : forall w s p ch s', InvA s -> InvA s' -> InvB w s -> isrep p -> pcr s p = FailLabel ->
+  step_failLabel cfg ch s p = Ok s' -> InvB w s'.
+Proof.
+  intros w s p ch s' IA IA' IB Hp Epc Hs. unfold step_failLabel in Hs.
+  assert (Es' : s' = set_rl (set_prim (set_fd s (updf (fdv s) p true)) (updf (prim (set_fd s (updf (fdv s) p true))) p false)) p
+                    (r_set_pc (rl s p) RDone)) by (inversion Hs; reflexivity).
+  clear Hs.
+  assert (Hnet : net s' = net s) by (subst s'; reflexivity).
+  assert (Hfsv : fsv s' = fsv s) by (subst s'; reflexivity).
+  assert (Hrlo : forall r, r <> p -> rl s' r = rl s r) by (intros r Hr; subst s'; simp_st; apply updf_other; exact Hr).
+  assert (Hrlp : rl s' p = r_set_pc (rl s p) RDone) by (subst s'; simp_st; apply updf_same).
+  assert (Hpc : forall r, pcr s' r = if Nat.eqb r p then RDone else pcr s r).
+  { intros r. unfold pcr. destruct (Nat.eqb r p) eqn:E; [apply Nat.eqb_eq in E; subst r; rewrite Hrlp; reflexivity|].
+    apply Nat.eqb_neq in E. rewrite (Hrlo r E). reflexivity. }
+  clear Es'.
+  assert (Hpa : forall r, pc_alive (pcr s' r) = pc_alive (pcr s r)).
+  { intros r. rewrite Hpc. destruct (Nat.eqb r p) eqn:E; [|reflexivity]. apply Nat.eqb_eq in E. subst r. rewrite Epc. reflexivity. }
+  assert (Hal : forall r, alive s' r <-> alive s r) by (intros r; unfold ProofsCrashA.alive; rewrite Hpa; tauto).
+  assert (Hnp : forall r, alive s r -> r <> p).
+  { intros r [_ Ha] ->. rewrite Epc in Ha. discriminate. }
+  assert (Hlpb : forall r, r_lastPutBody (rl s' r) = r_lastPutBody (rl s r)).
+  { intros r. destruct (Nat.eq_dec r p) as [->|Hne]; [rewrite Hrlp; reflexivity | rewrite (Hrlo r Hne); reflexivity]. }
+  assert (Hpend : forall r, alive s r -> pend s' r = pend s r).
+  { intros r Ar. pose proof (Hnp r Ar) as Hne. apply pend_ext; [unfold pcr; rewrite (Hrlo r Hne); reflexivity | rewrite (Hrlo r Hne); reflexivity | rewrite Hnet; reflexivity]. }
+  destruct (Nat.eq_dec (ldr s) p) as [Eq|Nq].
+  2:{ (* a backup's crash is announced: the leader is unchanged *)
+      assert (Hldr : ldr s' = ldr s).
+      { assert (Hn0 : ldr s <> 0).
+        { intros E0. pose proof (ldr_zero cfg s IA E0 p Hp) as H. rewrite Epc in H. discriminate. }
+        destruct (ldr_nonzero cfg s IA Hn0) as (Hq1 & Hq2 & Hq3).
+        apply (ldr_is cfg s' (ldr s) IA' Hq1).
+        - rewrite Hpc. destruct (Nat.eqb (ldr s) p) eqn:E; [apply Nat.eqb_eq in E; contradiction | exact Hq2].
+        - intros r Hr Hlt. rewrite Hpc. destruct (Nat.eqb r p); [reflexivity | apply Hq3; assumption]. }
+      apply (invB_frame_same cfg w s s'); auto; try (rewrite Hnet; reflexivity);
+        try (intros r k; rewrite Hfsv; reflexivity); try (apply Hrlo; auto). }
+  (* the leader's crash is announced: a new leader (or none) *)
+  pose proof IB as [V P Ph].
+  assert (Hknows : forall r, alive s r -> (knows w s' r <-> knows w s r)).
+  { intros r Ar. unfold knows, K. rewrite Hlpb, (Hpend r Ar). tauto. }
+  assert (Hnew : forall r, isnew w s' r <-> isnew w s r) by (apply fr_isnew; [exact Hlpb | intros; rewrite Hfsv; reflexivity]).
+  assert (Hold : forall r, isold w s' r <-> isold w s r) by (apply fr_isold; [exact Hlpb | intros; rewrite Hfsv; reflexivity]).
+  (* facts about a live new leader *)
+  assert (NL : alive s' (ldr s') ->
+     alive s (ldr s') /\ ldr s < ldr s' /\ queue (net s (ldr s') RESP) = [] /\ backup_pc (pcr s (ldr s')) /\
+     (0 < K s (ldr s') -> r_shouldSync (rl s (ldr s')) = true)).
+  { intros A. apply Hal in A. pose proof (Hnp _ A) as Hne.
+    destruct (alive_ge_ldr cfg s _ IA A) as [_ Hge]. rewrite Eq in Hge.
+    assert (Hlt : ldr s < ldr s') by (rewrite Eq; lia).
+    assert (Hnl : ldr s' <> ldr s) by lia.
+    destruct (a_loc cfg s IA _ A) as (L1 & _ & _ & L4 & _).
+    destruct (a_q cfg s IA _ A) as (_ & Rn & _).
+    split; [exact A|]. split; [exact Hlt|]. split; [apply Rn; exact Hnl|]. split; [apply L1; exact Hnl|].
+    intros HK. apply L4; [exact Hnl | exact HK]. }
+  assert (Hrlq' : alive s' (ldr s') -> rl s' (ldr s') = rl s (ldr s')).
+  { intros A. apply Hrlo. apply Hnp. apply Hal. exact A. }
+  constructor; [constructor; try apply V | constructor | constructor].
+  - intros r A. apply Hal in A. rewrite Hnew, Hold. apply (v_rep cfg w s V r A).
+  - intros r m A Hm. apply Hal in A. rewrite (Hpend r A) in Hm. apply (v_pend cfg w s V r m A Hm).
+  - intros m A Hm. destruct (NL A) as (_ & _ & E & _). rewrite Hnet, E in Hm. destruct Hm.
+  - intros r1 r2 A1 A2 Hlt Hk. apply Hal in A1. apply Hal in A2. apply (Hknows r1 A1). apply (Hknows r2 A2) in Hk.
+    apply (p_order cfg w s P r1 r2 A1 A2 Hlt Hk).
+  - intros m A Hm. destruct (NL A) as (_ & _ & E & _). rewrite Hnet, E in Hm. destruct Hm.
+  - intros A [H|H]; destruct (NL A) as (_ & _ & _ & Hb & _); unfold pcr in H; rewrite (Hrlq' A) in H;
+      unfold pcr in Hb; rewrite H in Hb; destruct Hb.
+  - (* main: a new leader that is ahead of a backup has handled a request, so its shouldSync is set *)
+    intros A _ b Ab Hb HK. destruct (NL A) as (_ & _ & _ & _ & Hs). left. right. right. rewrite (Hrlq' A). apply Hs.
+    unfold K in *. rewrite !Hlpb in HK. lia.
+  - (* tok: nothing is in flight between the new leader and anybody *)
+    intros A _ b Ab Hb. destruct (NL A) as (A0 & Hlt & E & _). apply Hal in Ab.
+    assert (Et : toks s' (ldr s') b = []).
+    { unfold toks, sresps, sreqs. rewrite Hnet, E, (Hpend b Ab). cbn [filter app].
+      apply filter_nil_forall. intros m Hm. unfold is_syncreq. rewrite (pend_not_from_above s b _ m IA Ab Hlt Hm). reflexivity. }
+    rewrite Et. exact Logic.I.
+  - intros A _ b Ab Hb. destruct (NL A) as (A0 & Hlt & E & _). apply Hal in Ab.
+    assert (Et : toks s' (ldr s') b = []).
+    { unfold toks, sresps, sreqs. rewrite Hnet, E, (Hpend b Ab). cbn [filter app].
+      apply filter_nil_forall. intros m Hm. unfold is_syncreq. rewrite (pend_not_from_above s b _ m IA Ab Hlt Hm). reflexivity. }
+    rewrite Et. split; [cbn; lia | intros H; congruence].
+  - intros A _ b Ab Hb. destruct (NL A) as (A0 & Hlt & E & _). apply Hal in Ab.
+    unfold acks, puts. rewrite Hnet, E, (Hpend b Ab). split; [reflexivity|].
+    apply filter_nil_forall. intros m Hm. unfold is_put. rewrite (pend_not_from_above s b _ m IA Ab Hlt Hm). reflexivity.
+  - intros A [H|H]; destruct (NL A) as (_ & _ & _ & Hb & _); unfold pcr in H; rewrite (Hrlq' A) in H;
+      unfold pcr in Hb; rewrite H in Hb; destruct Hb.
+Qed.
+
+
+(* ------------------------------------------------------------------ the whole invariant *)
+Definition InvC (s : state) : Prop := InvA s /\ exists w, InvB w s.
+
+Lemma init_invB : forall input, InvB (mkWit 0 None (fun _ => EmptyString) None) (init cfg input).
+Proof.
+  intros input. constructor; [constructor | constructor | constructor]; cbn; try easy.
+  - intros r _. left. split; [reflexivity | intros k; reflexivity].
+  - intros _ [H|H]; discriminate H.
+Qed.
+
+Lemma invC_init : forall input, Forall input_ok input -> InvC (init cfg input).
+Proof. intros input H. split; [apply init_invA; exact H | eexists; apply init_invB]. Qed.
+
+Lemma invC_step : forall s e s', InvC s -> step cfg s e = Ok s' -> InvC s'.
+Proof.
+  intros s [p ch] s' [IA (w & IB)] Hs.
+  assert (IA' : InvA s') by (eapply invA_step; eauto).
+  split; [exact IA'|].
+  unfold step in Hs. destruct (is_replica cfg p) eqn:Er.
+  - apply (isrep_iff cfg) in Er. unfold step_replica in Hs.
+    destruct (r_pc (rl s p)) eqn:Epc;
+      try (assert (Ap : alive s p) by (split; [exact Er | unfold pcr; rewrite Epc; reflexivity])).
+    + exists w. eapply invB_replicaLoop; eauto.
+    + exists w. eapply invB_syncPrimary; eauto.
+    + exists w. eapply invB_sndSyncReqLoop; eauto.
+    + exists w. eapply invB_rcvSyncRespLoop; eauto.
+    + exists w. eapply invB_rcvMsg; eauto.
+    + exists w. eapply invB_handleBackup; eauto.
+    + eapply invB_handlePrimary; eauto.
+    + exists w. eapply invB_sndReplicaReqLoop; eauto.
+    + exists w. eapply invB_rcvReplicaRespLoop; eauto.
+    + exists w. eapply invB_sndResp; eauto.
+    + exists w. eapply invB_failLabel; eauto.
+    + discriminate.
+  - destruct (is_client cfg p) eqn:Ec; [|discriminate]. exists w.
+    apply (invB_client_step cfg w s p ch s' IA IB); [apply is_client_true in Ec; lia | exact Hs].
+Qed.
+
+Lemma invC_reachable : forall input s, Forall input_ok input -> reachable cfg input s -> InvC s.
+Proof.
+  intros input s Hin Hr. induction Hr.
+  - apply invC_init. exact Hin.
+  - eapply invC_step; eauto.
+Qed.
+
+(* ------------------------------------------------------------------ ConsistencyOK *)
+Lemma invC_consistency : forall s, InvC s -> ConsistencyOK cfg s.
+Proof.
+  intros s [IA (w & [V P Ph])] p (Hp & Hap & Hmin) Hpc r Hr Har k.
+  assert (Ap : alive s p).
+  { split; [exact Hp|]. unfold pcr. rewrite Hpc. reflexivity. }
+  assert (Ar : alive s r).
+  { split; [exact Hr|]. destruct Har as [H1 H2]. unfold pcr. destruct (r_pc (rl s r)); try reflexivity; contradiction. }
+  (* p, being at sndResp, is the leader *)
+  assert (Hq : p = ldr s).
+  { apply (nonbackup_is_ldr cfg s p IA Ap). unfold pcr. rewrite Hpc. cbn. tauto. }
+  destruct (Nat.eq_dec r p) as [->|Hne]; [reflexivity|].
+  rewrite Hq in *. clear Hq.
+  destruct (a_loc cfg s IA _ Ap) as (_ & _ & L3 & _).
+  destruct L3 as (m & _ & _ & Hss & Hqc); [rewrite Hpc; exact Logic.I|].
+  assert (HfP : filter is_p (queue (net s (ldr s) REQ)) = []) by (apply (Forall_creq_filter_p cfg); exact Hqc).
+  assert (Hn1 : pcr s (ldr s) <> HandleBackup) by (unfold pcr; rewrite Hpc; discriminate).
+  assert (Hpq : pend s (ldr s) = []) by (rewrite pend_not_hb by exact Hn1; exact HfP).
+  assert (N1 : ~ insync s (ldr s)) by (unfold insync, pcr; rewrite Hpc; intuition discriminate).
+  assert (N2 : ~ inrepl s (ldr s)) by (unfold inrepl, pcr; rewrite Hpc; intuition discriminate).
+  assert (N3 : ~ owed s (ldr s)).
+  { unfold owed, owedP. rewrite HfP, Hss. unfold pcr. rewrite Hpc. intros [H|[H|H]]; [apply H; reflexivity | discriminate | discriminate]. }
+  assert (G : K s (ldr s) <= K s r).
+  { destruct (le_lt_dec (K s (ldr s)) (K s r)) as [H|H]; [exact H|]. exfalso.
+    destruct (ph_main cfg w s Ph Ap N2 r Ar Hne H) as [X|(X & _)]; contradiction. }
+  destruct (v_rep cfg w s V _ Ap) as [Hqn|Hqo]; destruct (v_rep cfg w s V r Ar) as [Hrn|Hro].
+  - destruct Hqn as [_ F1]. destruct Hrn as [_ F2]. rewrite F1, F2. reflexivity.
+  - pose proof (isnew_K w s _ Hqn). destruct (isold_K w s r Hro). lia.
+  - (* the backup knows the latest version but the leader does not and has nothing pending: impossible *)
+    exfalso. destruct (alive_ge_ldr cfg s r IA Ar) as [_ Hge].
+    assert (Hk : knows w s (ldr s)).
+    { apply (p_order cfg w s P (ldr s) r Ap Ar); [lia | left; apply isnew_K; exact Hrn]. }
+    destruct (isold_K w s _ Hqo). destruct Hk as [Hk|(m0 & Hm0 & _)]; [lia | rewrite Hpq in Hm0; destruct Hm0].
+  - destruct Hqo as (_ & _ & F1). destruct Hro as (_ & _ & F2). rewrite F1, F2. reflexivity.
+Qed.
+
 End CRC.
+
+Lemma consistency_ok_lemma : forall cfg input evs s,
+  Forall input_ok input -> exec cfg (init cfg input) evs = Some s -> ConsistencyOK cfg s.
+Proof.
+  intros cfg input evs s Hin He. apply invC_consistency.
+  apply (invC_reachable cfg input s Hin).
+  eapply exec_reachable; [apply reach_init | exact He].
+Qed.
